@@ -29,6 +29,7 @@ Proof.
   - intros a b Ga Gb. apply f64_leb_total; apply nonan_iff; assumption.
   - intros a b c _ _ _. apply f64_leb_trans.
   - intros a b _ _. apply f64_leb_antisym.
+  - intros a b _ E. apply nonan_iff. apply (eqb_true_ok _ _ E).
 Qed.
 
 Section F64.
@@ -44,8 +45,7 @@ Section F64.
   Proof.
     intros Hv K N D Ni A E.
     apply (known_point PrimFloat.leb PrimFloat.eqb ofZ interp mk nonan F_order_ok assign insts q qv v ks i inst k); auto.
-    - apply no_nan_allgood. exact N.
-    - apply nonan_iff. apply (eqb_true_ok _ _ E).
+    apply no_nan_allgood. exact N.
   Qed.
 
   Theorem per_leaf_F assign template rest q qv r :
@@ -75,8 +75,7 @@ Section F64.
   Qed.
 
   Theorem order_free_F assign insts insts' q qv ks F :
-    Permutation insts insts' -> keys_of ofZ q insts = Some ks -> no_nan ks ->
-    (forall v, num_of ofZ qv = Some v -> is_nan v = false) -> distinct PrimFloat.eqb ks -> same_shape F insts ->
+    Permutation insts insts' -> keys_of ofZ q insts = Some ks -> no_nan ks -> distinct PrimFloat.eqb ks -> same_shape F insts ->
     match run assign insts q qv, run assign insts' q qv with
     | OSame i, OSame j => nth_error insts' j = nth_error insts i /\ nth_error insts i <> None
     | ONew r, ONew r' => forall p, In p F -> get p r' = get p r
@@ -84,10 +83,9 @@ Section F64.
     | _, _ => False
     end.
   Proof.
-    intros P K N Q D Sh.
+    intros P K N D Sh.
     apply (order_free PrimFloat.leb PrimFloat.eqb ofZ interp mk nonan F_order_ok assign insts insts' q qv ks F); auto.
-    - apply no_nan_allgood. exact N.
-    - intros v Hv. apply nonan_iff. apply Q. exact Hv.
+    apply no_nan_allgood. exact N.
   Qed.
 
   (* the sorted abscissae handed to the routine are sorted, a permutation of the abscissae, and the same
